@@ -263,11 +263,12 @@ func iohelpLayoutRules(c *core.Ctx, p *load.Prog, rWidth, rGUID, rBuild string) 
 		}
 		for _, f := range []*ioFn{rd, wr} {
 			n++
-			if g := f.usesGenericHelper(); g != "" {
-				c.Undecide("iohelp.%s goes through the generic helper %s: the layout rules do not instantiate type parameters", f.name, g)
+			pr, unkP := f.instProbes()
+			pts, zero, unkC := f.instCasts()
+			if unkP || unkC {
+				c.Undecide("iohelp.%s: a bounds probe or an unsafe cast in a helper it calls could not be evaluated under the instantiation at the call", f.name)
 				continue
 			}
-			pr := f.probes()
 			okProbe := len(pr) >= 1
 			for _, x := range pr {
 				if x+1 < w {
@@ -275,7 +276,6 @@ func iohelpLayoutRules(c *core.Ctx, p *load.Prog, rWidth, rGUID, rBuild string) 
 				}
 			}
 			c.Check(rWidth, f.name+" bounds probe covers the width", f.pos(), okProbe, fmt.Sprintf("bounds probes %v, need index >= %d before a %d-byte unsafe access", pr, w-1, w))
-			pts, zero := f.unsafeCasts()
 			okCast := len(pts) == 1 && zero
 			if okCast {
 				okCast = sizeofType(p, pts[0]) == int64(w) && pts[0].String() == gt
@@ -843,10 +843,6 @@ func iohelpStreamWidths(c *core.Ctx, p *load.Prog, rule string) {
 		w := stemWidth[stem]
 		if f := ioFunc(c, p, "Read"+stem); f != nil {
 			n++
-			if g := f.usesGenericHelper(); g != "" {
-				c.Undecide("iohelp.Read%s goes through the generic helper %s: the layout rules do not instantiate type parameters", stem, g)
-				continue
-			}
 			got := -1
 			target := ""
 			acc := f.streamAccess(false, scratch, 0)
@@ -879,6 +875,12 @@ func iohelpStreamWidths(c *core.Ctx, p *load.Prog, rule string) {
 						okd = true
 					}
 				}
+				if !okd {
+					// or through the same cast the byte reader uses (a shared helper)
+					if pts, zero, unk := f.instCasts(); !unk && len(pts) == 1 && zero && pts[0].String() == goTypeOfStem[stem] {
+						okd = true
+					}
+				}
 				c.Check(rule, "Read"+stem+" decodes the scratch with Read"+stem+"Bytes", f.pos(), okd, "no call Read"+stem+"Bytes(<reader>.buffer)")
 			}
 		}
@@ -887,10 +889,6 @@ func iohelpStreamWidths(c *core.Ctx, p *load.Prog, rule string) {
 		}
 		if f := ioFunc(c, p, "Write"+stem); f != nil {
 			n++
-			if g := f.usesGenericHelper(); g != "" {
-				c.Undecide("iohelp.Write%s goes through the generic helper %s: the layout rules do not instantiate type parameters", stem, g)
-				continue
-			}
 			got := -1
 			lit := false
 			wacc := f.streamAccess(true, scratch, 0)
@@ -914,6 +912,11 @@ func iohelpStreamWidths(c *core.Ctx, p *load.Prog, rule string) {
 				oke := false
 				for _, call := range f.calls() {
 					if wire.Canon(call.Fun) == "Write"+stem+"Bytes" && len(call.Args) == 2 && f.canon(call.Args[0]) == "w.buffer" {
+						oke = true
+					}
+				}
+				if !oke {
+					if pts, zero, unk := f.instCasts(); !unk && len(pts) == 1 && zero && pts[0].String() == goTypeOfStem[stem] {
 						oke = true
 					}
 				}
@@ -2069,32 +2072,33 @@ func (f *ioFn) isGeneric() bool {
 
 // streamAccess finds the read (write=false) or write (write=true) f makes on
 // its own stream: io.ReadFull(S, X) / S.Read(X) / S.Write(X) in f itself, or
-// in a package-local helper that f hands its stream to (depth-limited).
-func (f *ioFn) streamAccess(write bool, scratch int, depth int) streamAcc {
-	streams := map[string]bool{"r": true, "er": true}
-	bases := []string{"r.buffer", "er.buffer"}
-	if write {
-		streams = map[string]bool{"w": true, "ew": true}
-		bases = []string{"w.buffer", "ew.buffer"}
+// in an unexported helper f hands its stream to, read under the bindings of
+// the call (value parameters and type parameters).
+func (f *ioFn) streamAccess(write bool, scratch int, _ int) streamAcc {
+	var acc streamAcc
+	isBuffer := func(g *ioFn, e ast.Expr) bool {
+		switch g.canon(e) {
+		case "r.buffer", "er.buffer", "w.buffer", "ew.buffer":
+			return true
+		}
+		return false
 	}
-	widthOf := func(e ast.Expr) (int, bool) {
-		e = ast.Unparen(e)
+	var widthOf func(env *instEnv, e ast.Expr, hops int) (int, bool)
+	widthOf = func(env *instEnv, e ast.Expr, hops int) (int, bool) {
+		env, e = env.resolve(e)
+		g := env.owner
 		if cl, ok := e.(*ast.CompositeLit); ok {
 			return len(cl.Elts), true
 		}
-		// a local with one definition stands for that definition
-		for hop := 0; hop < 3; hop++ {
-			id, ok := e.(*ast.Ident)
-			if !ok {
-				break
-			}
-			o := f.info.ObjectOf(id)
+		if id, ok := e.(*ast.Ident); ok && hops < 3 {
+			// a local with one definition stands for that definition
+			o := g.info.ObjectOf(id)
 			var def ast.Expr
 			defs := 0
-			ast.Inspect(f.fd.Body, func(n ast.Node) bool {
+			ast.Inspect(g.fd.Body, func(n ast.Node) bool {
 				if as, ok := n.(*ast.AssignStmt); ok && len(as.Lhs) == len(as.Rhs) {
 					for i, l := range as.Lhs {
-						if lid, ok := l.(*ast.Ident); ok && f.info.ObjectOf(lid) == o {
+						if lid, ok := l.(*ast.Ident); ok && g.info.ObjectOf(lid) == o {
 							defs++
 							def = as.Rhs[i]
 						}
@@ -2102,84 +2106,69 @@ func (f *ioFn) streamAccess(write bool, scratch int, depth int) streamAcc {
 				}
 				return true
 			})
-			if defs != 1 {
-				break
+			if defs == 1 {
+				return widthOf(env, def, hops+1)
 			}
-			e = ast.Unparen(def)
+			return -1, false
 		}
-		for _, b := range bases {
-			if w := sliceWidth(f, e, b, scratch); w >= 0 {
-				return w, false
+		if isBuffer(g, e) {
+			return scratch, false
+		}
+		if se, ok := e.(*ast.SliceExpr); ok {
+			if se.Low == nil && se.High != nil && isBuffer(g, se.X) {
+				if k, okk := env.evalInt(se.High); okk {
+					return k, false
+				}
+				return -1, false
 			}
-		}
-		// arr[:] of a fixed-size array
-		if se, ok := e.(*ast.SliceExpr); ok && se.Low == nil && se.High == nil {
-			if t := f.info.TypeOf(se.X); t != nil {
-				if arr, ok := t.Underlying().(*types.Array); ok {
-					return int(arr.Len()), false
+			if se.Low == nil && se.High == nil {
+				if t := g.info.TypeOf(se.X); t != nil {
+					if arr, ok := t.Underlying().(*types.Array); ok {
+						return int(arr.Len()), false
+					}
 				}
 			}
 		}
 		return -1, false
 	}
-	for _, call := range f.calls() {
-		fn := f.canon(call.Fun)
-		if !write && fn == "io.ReadFull" && len(call.Args) == 2 {
-			w, _ := widthOf(call.Args[1])
-			return streamAcc{found: true, target: f.canon(call.Args[0]), width: w, owner: f}
+	f.instWalk(func(env *instEnv, n ast.Node) bool {
+		if acc.found {
+			return false
 		}
-		if sel, ok := ast.Unparen(call.Fun).(*ast.SelectorExpr); ok && len(call.Args) == 1 {
+		call, ok := n.(*ast.CallExpr)
+		if !ok {
+			return true
+		}
+		g := env.owner
+		var tgt, data ast.Expr
+		if !write && wire.Canon(call.Fun) == "io.ReadFull" && len(call.Args) == 2 {
+			tgt, data = call.Args[0], call.Args[1]
+		} else if sel, isSel := ast.Unparen(call.Fun).(*ast.SelectorExpr); isSel && len(call.Args) == 1 {
 			if (!write && sel.Sel.Name == "Read") || (write && sel.Sel.Name == "Write") {
-				if tgt := f.canon(sel.X); streams[tgt] {
-					w, lit := widthOf(call.Args[0])
-					return streamAcc{found: true, target: tgt, width: w, lit: lit, owner: f}
+				if t := g.info.TypeOf(sel.X); t != nil {
+					ts := t.String()
+					if (!write && strings.HasSuffix(ts, "iohelp.ErrorReader")) || (write && strings.HasSuffix(ts, "iohelp.ErrorWriter")) {
+						tgt, data = sel.X, call.Args[0]
+					}
 				}
 			}
 		}
-	}
-	if depth >= 3 {
-		return streamAcc{}
-	}
-	pk := f.p.Iohelp()
-	for _, call := range f.calls() {
-		cal := load.Callee(f.info, call)
-		if cal == nil || cal.Pkg() != pk.Types || cal.Exported() {
-			continue
+		if tgt == nil {
+			return true
 		}
-		// handed our stream: as receiver or as an argument
-		passes := false
-		if sel, ok := ast.Unparen(call.Fun).(*ast.SelectorExpr); ok && streams[f.canon(sel.X)] {
-			passes = true
+		tenv, texpr := env.resolve(tgt)
+		target := tenv.owner.canon(texpr)
+		switch target {
+		case "er":
+			target = "r"
+		case "ew":
+			target = "w"
 		}
-		for _, a := range call.Args {
-			if streams[f.canon(a)] {
-				passes = true
-			}
-		}
-		if !passes {
-			continue
-		}
-		fd := f.p.Decl(cal)
-		if fd == nil || fd.Body == nil {
-			continue
-		}
-		h := &ioFn{p: f.p, info: f.info, fd: fd, name: load.FuncName(cal)}
-		if h.isGeneric() {
-			return streamAcc{generic: true, owner: h}
-		}
-		if acc := h.streamAccess(write, scratch, depth+1); acc.found || acc.generic {
-			// the helper's own stream name stands for ours
-			if acc.found && streams[acc.target] {
-				if write {
-					acc.target = "w"
-				} else {
-					acc.target = "r"
-				}
-			}
-			return acc
-		}
-	}
-	return streamAcc{}
+		w, lit := widthOf(env, data, 0)
+		acc = streamAcc{found: true, target: target, width: w, lit: lit, owner: g}
+		return false
+	})
+	return acc
 }
 
 // usesGenericHelper: some function of f's closure has type parameters.
@@ -2282,4 +2271,233 @@ func packageTable(p *load.Prog, v *types.Var) ([]int, bool) {
 		})
 	}
 	return tab, !written
+}
+
+// ---- instantiating walk -------------------------------------------------
+//
+// The scalar helpers may be written once, generically, and instantiated per
+// type (loadFixed[uint16](buf)). The layout rules then have to read the
+// helper's body under the instantiation: the pointee of the unsafe cast is the
+// type argument, the bounds probe is unsafe.Sizeof of it, the slice handed to
+// the stream is a parameter bound at the call. instWalk visits f's body and,
+// at every call of an unexported function of the package, the callee's body
+// with its type parameters and value parameters bound.
+
+type instEnv struct {
+	owner  *ioFn
+	subst  map[*types.TypeParam]types.Type
+	args   map[types.Object]ast.Expr // parameter -> argument expression, to be read in parent
+	parent *instEnv
+}
+
+func (e *instEnv) substType(t types.Type) types.Type {
+	switch x := t.(type) {
+	case *types.TypeParam:
+		for env := e; env != nil; env = env.parent {
+			if r, ok := env.subst[x]; ok {
+				if env.parent != nil {
+					return env.parent.substType(r)
+				}
+				return r
+			}
+		}
+	case *types.Pointer:
+		return types.NewPointer(e.substType(x.Elem()))
+	}
+	return t
+}
+
+// evalInt evaluates an integer expression of the helper under the bindings:
+// constants, + - *, conversions, unsafe.Sizeof(x), bound parameters.
+func (e *instEnv) evalInt(x ast.Expr) (int, bool) {
+	x = ast.Unparen(x)
+	info := e.owner.info
+	if tv := info.Types[x]; tv.Value != nil {
+		var k int
+		if _, err := fmt.Sscanf(tv.Value.ExactString(), "%d", &k); err == nil {
+			return k, true
+		}
+	}
+	switch y := x.(type) {
+	case *ast.BinaryExpr:
+		a, ok1 := e.evalInt(y.X)
+		b, ok2 := e.evalInt(y.Y)
+		if !ok1 || !ok2 {
+			return 0, false
+		}
+		switch y.Op {
+		case token.ADD:
+			return a + b, true
+		case token.SUB:
+			return a - b, true
+		case token.MUL:
+			return a * b, true
+		}
+	case *ast.CallExpr:
+		if len(y.Args) != 1 {
+			return 0, false
+		}
+		if tv, ok := info.Types[y.Fun]; ok && tv.IsType() {
+			return e.evalInt(y.Args[0])
+		}
+		if wire.Canon(y.Fun) == "unsafe.Sizeof" {
+			t := info.TypeOf(y.Args[0])
+			if t == nil {
+				return 0, false
+			}
+			t = e.substType(t)
+			if _, still := t.(*types.TypeParam); still {
+				return 0, false
+			}
+			return int(sizeofType(e.owner.p, t)), true
+		}
+	case *ast.Ident:
+		if a, ok := e.args[info.ObjectOf(y)]; ok && e.parent != nil {
+			return e.parent.evalInt(a)
+		}
+	}
+	return 0, false
+}
+
+// resolve follows parameter bindings: an identifier that is a bound parameter
+// stands for the caller's argument (read in the caller's environment).
+func (e *instEnv) resolve(x ast.Expr) (*instEnv, ast.Expr) {
+	env := e
+	for hop := 0; hop < 4; hop++ {
+		id, ok := ast.Unparen(x).(*ast.Ident)
+		if !ok {
+			break
+		}
+		a, bound := env.args[env.owner.info.ObjectOf(id)]
+		if !bound || env.parent == nil {
+			break
+		}
+		env, x = env.parent, a
+	}
+	return env, ast.Unparen(x)
+}
+
+func (f *ioFn) instWalk(visit func(env *instEnv, n ast.Node) bool) {
+	pk := f.p.Iohelp()
+	var walk func(env *instEnv, depth int)
+	walk = func(env *instEnv, depth int) {
+		g := env.owner
+		ast.Inspect(g.fd.Body, func(n ast.Node) bool {
+			if !visit(env, n) {
+				return false
+			}
+			call, ok := n.(*ast.CallExpr)
+			if !ok || depth >= 3 {
+				return true
+			}
+			cal := load.Callee(g.info, call)
+			if cal == nil || cal.Pkg() != pk.Types || cal.Exported() {
+				return true
+			}
+			fd := f.p.Decl(cal)
+			sig, _ := cal.Type().(*types.Signature)
+			if fd == nil || fd.Body == nil || sig == nil || fd == g.fd {
+				return true
+			}
+			h := &ioFn{p: f.p, info: f.info, fd: fd, name: load.FuncName(cal)}
+			child := &instEnv{owner: h, subst: map[*types.TypeParam]types.Type{}, args: map[types.Object]ast.Expr{}, parent: env}
+			// type arguments: explicit (F[T](…)) or inferred
+			var fid *ast.Ident
+			switch fx := ast.Unparen(call.Fun).(type) {
+			case *ast.Ident:
+				fid = fx
+			case *ast.IndexExpr:
+				fid, _ = ast.Unparen(fx.X).(*ast.Ident)
+			case *ast.IndexListExpr:
+				fid, _ = ast.Unparen(fx.X).(*ast.Ident)
+			case *ast.SelectorExpr:
+				fid = fx.Sel
+			}
+			if fid != nil {
+				if inst, ok := g.info.Instances[fid]; ok && sig.TypeParams() != nil {
+					for i := 0; i < sig.TypeParams().Len() && i < inst.TypeArgs.Len(); i++ {
+						child.subst[sig.TypeParams().At(i)] = inst.TypeArgs.At(i)
+					}
+				}
+			}
+			for i, a := range call.Args {
+				if i < sig.Params().Len() {
+					child.args[sig.Params().At(i)] = a
+				}
+			}
+			if sel, ok := ast.Unparen(call.Fun).(*ast.SelectorExpr); ok && sig.Recv() != nil && fd.Recv != nil && len(fd.Recv.List) == 1 && len(fd.Recv.List[0].Names) == 1 {
+				child.args[f.info.Defs[fd.Recv.List[0].Names[0]]] = sel.X
+			}
+			walk(child, depth+1)
+			return true
+		})
+	}
+	walk(&instEnv{owner: f, subst: map[*types.TypeParam]types.Type{}, args: map[types.Object]ast.Expr{}}, 0)
+}
+
+// instProbes: the N of every `_ = x[N]` reached by the instantiating walk;
+// unknown is set when some probe index cannot be evaluated.
+func (f *ioFn) instProbes() (out []int, unknown bool) {
+	f.instWalk(func(env *instEnv, n ast.Node) bool {
+		as, ok := n.(*ast.AssignStmt)
+		if !ok || len(as.Lhs) != 1 || len(as.Rhs) != 1 {
+			return true
+		}
+		if id, ok := as.Lhs[0].(*ast.Ident); !ok || id.Name != "_" {
+			return true
+		}
+		if ix, ok := as.Rhs[0].(*ast.IndexExpr); ok {
+			if k, okk := env.evalInt(ix.Index); okk {
+				out = append(out, k)
+			} else {
+				unknown = true
+			}
+		}
+		return true
+	})
+	return
+}
+
+// instCasts: pointee types (instantiated) of every *(*T)(unsafe.Pointer(&x[i]))
+// reached by the instantiating walk, and whether every i is 0.
+func (f *ioFn) instCasts() (pointees []types.Type, indexZero bool, unknown bool) {
+	indexZero = true
+	f.instWalk(func(env *instEnv, n ast.Node) bool {
+		st, ok := n.(*ast.StarExpr)
+		if !ok {
+			return true
+		}
+		g := env.owner
+		call, ok := ast.Unparen(st.X).(*ast.CallExpr)
+		if !ok || len(call.Args) != 1 {
+			return true
+		}
+		tv, ok := g.info.Types[call.Fun]
+		if !ok || !tv.IsType() {
+			return true
+		}
+		pt, ok := tv.Type.(*types.Pointer)
+		if !ok {
+			return true
+		}
+		inner, ok := ast.Unparen(call.Args[0]).(*ast.CallExpr)
+		if !ok || wire.Canon(inner.Fun) != "unsafe.Pointer" || len(inner.Args) != 1 {
+			return true
+		}
+		el := env.substType(pt.Elem())
+		if _, still := el.(*types.TypeParam); still {
+			unknown = true
+			return true
+		}
+		pointees = append(pointees, el)
+		if u, ok := ast.Unparen(inner.Args[0]).(*ast.UnaryExpr); ok && u.Op == token.AND {
+			if ix, ok := ast.Unparen(u.X).(*ast.IndexExpr); ok {
+				if k, okk := env.evalInt(ix.Index); !okk || k != 0 {
+					indexZero = false
+				}
+			}
+		}
+		return true
+	})
+	return
 }
